@@ -72,6 +72,10 @@ func checkC08(c *Ctx) {
 			c.beforeAlways(g, caseEntry(g, *cs), "SUBSCRIBE:retained-after-SUBACK", c.evAckWrite("SubackMessage"), retainedSend, c.P.InstrPos(cs.Entry.Instrs[0]), "a retained message can be delivered before the SUBACK is written")
 		}
 	}
+	// a new subscription receives every retained message its filter matches: the '#' walk collects each node's own
+	// message and descends into every child
+	c.useRules(ruleP4)
+	c.trieTraversals()
 	lockBalance(c, func(cl string) bool { return strings.HasPrefix(cl, "topics.MemTopics.rmu") }, "retained-store")
 }
 
